@@ -48,6 +48,13 @@ def _wrap_ids(ids, how):
     if how == 'name':
         T = namedtuple('ObjWithName', 'name')
         return [T(i) for i in ids], (lambda objs: [o.name for o in objs])
+    if how == 'mixed':                   # one list mixing str, objects with .id, objects with .name
+        TI, TN = namedtuple('ObjWithId', 'id'), namedtuple('ObjWithName', 'name')
+        objs = [(i, TI(i), TN(i))[k % 3] for k, i in enumerate(ids)]
+
+        def read(objs):
+            return [o if isinstance(o, str) else (o.id if isinstance(o, TI) else o.name) for o in objs]
+        return objs, read
     raise core.MachineryError('unknown id carrier %r' % (how,))
 
 
@@ -178,7 +185,13 @@ def execute_range(case):
         objs, read = held[call['as']]
         raised, out = '', ''
         try:
-            out = _get_omkm_range(objs=objs, delimiter=delim, format=call['form'])
+            if case.get('parent'):
+                out = _get_omkm_range(objs=objs, parent_obj=objs, delimiter=delim, format=call['form'])
+            elif case.get('defaults'):       # delimiter (and the str format) left at their defaults
+                out = (_get_omkm_range(objs) if call['form'] == 'str'
+                       else _get_omkm_range(objs, format=call['form']))
+            else:
+                out = _get_omkm_range(objs=objs, delimiter=delim, format=call['form'])
         except Exception as ex:
             raised = type(ex).__name__
         events.append(_range_event(ids, read(objs), delim, raised, out,
@@ -192,6 +205,7 @@ def execute_range(case):
 # wrapping
 # --------------------------------------------------------------------------
 def _wrap_obj(toks, how):
+    """the value object of a wrap case and the tokens it carries (as the caller built it)"""
     if how == 'list':
         return list(toks), list(toks)
     if how == 'tuple':
@@ -201,21 +215,38 @@ def _wrap_obj(toks, how):
     if how == 'set':
         s = set(toks)
         return s, list(s)
-    if how == 'dict':
+    if how in ('dict', 'dictnum'):
         d = {}
         for t in toks:
             k, v = t.split(':', 1)
+            if how == 'dictnum':              # numeric values, as in Nasa.to_cti's atoms
+                v = float(v) if ('.' in v or 'e' in v) else int(v)
             d[k] = v
         return d, ['%s:%s' % kv for kv in d.items()]
+    if how == 'none':                         # documented: None -> empty value
+        return None, []
+    if how == 'int':
+        v = int(toks[0])
+        return v, [str(v)]
+    if how == 'float':
+        v = float(toks[0])
+        return v, [str(v)]
+    if how == 'bool':
+        v = toks[0] == 'True'
+        return v, [str(v)]
     raise core.MachineryError('unknown value carrier %r' % (how,))
 
 
 def _project(obj, how):
     """the tokens a value object carries right now (projection)"""
     if how == 'str':
-        return obj.split()
-    if how == 'dict':
+        return obj.split(' ') if obj else []
+    if how in ('dict', 'dictnum'):
         return ['%s:%s' % kv for kv in obj.items()]
+    if how == 'none':
+        return [] if obj is None else [repr(obj)]
+    if how in ('int', 'float', 'bool'):
+        return [str(obj)]
     return [x if isinstance(x, str) else repr(x) for x in obj]
 
 
@@ -244,13 +275,18 @@ def execute_wrap(case):
     same object); the object is read before and after every call."""
     from pmutt.io.cantera import obj_to_cti
     obj, toks = _wrap_obj(case['toks'], case['obj'])
-    widths = [tuple(w) for w in case.get('widths') or [(case['ll'], case['ml'])]]
+    asked = case.get('widths') or [(case['ll'], case['ml'])]
+    # an entry None = both widths left at their documented default (80)
+    widths = [(80, 80) if w is None else tuple(w) for w in asked]
     events, info = [], {}
     for n, (ll, ml) in enumerate(widths):
         before = _project(obj, case['obj'])
         raised, out = '', ''
         try:
-            out = obj_to_cti(obj, line_len=ll, max_line_len=ml)
+            if asked[n] is None:
+                out = obj_to_cti(obj)
+            else:
+                out = obj_to_cti(obj, line_len=ll, max_line_len=ml)
         except Exception as ex:
             raised = type(ex).__name__
         events.append(_wrap_event(toks, before, _project(obj, case['obj']), ll, ml, raised, out,
@@ -278,46 +314,95 @@ def _cti_value(text, field):
     return len(m.group('prefix')), text[start:end]
 
 
-def execute_wrapfield(case):
-    """A real phase whose species / options / note / phases carry the tokens is written twice
-    with to_cti (to_omkm_yaml in between); each written field is one wrap event."""
-    from pmutt.empirical.nasa import Nasa
+ELEMENT_SYMBOLS = ('H He Li Be B C N O F Ne Na Mg Al Si P S Cl Ar K Ca Sc Ti V Cr Mn Fe Co Ni Cu Zn '
+                   'Ga Ge As Se Br Kr Rb Sr Y Zr Nb Mo Ru Rh Pd Ag Cd In Sn Sb Te I Xe Pt Au').split()
+
+
+def _wrap_host(case):
+    """Build the real object of a wrapfield case.  Returns (write, between, fields) where
+    write(ml) -> CTI text (ml None = the writer's default), between() is another writer of the
+    same object (called, not judged) and fields maps a CTI field name to
+    (tokens as built, reader of the tokens the object holds now, fixed line_len or None)."""
     import numpy as np
-    from pmutt.omkm.phase import InteractingInterface, IdealGas
-    from pmutt.cantera.phase import IdealGas as CtIdealGas
+    from pmutt.empirical.nasa import Nasa, Nasa9, SingleNasa9
+    from pmutt.empirical.shomate import Shomate
+    from pmutt.omkm.phase import InteractingInterface, IdealGas, StoichSolid
+    from pmutt.cantera.phase import IdealGas as CtIdealGas, StoichSolid as CtStoichSolid
+    host, toks = case['host'], case['toks']
     a = np.zeros(7)
-    toks = case['toks']
+    if host.endswith('.atoms'):
+        # species writers: atoms=<dict of element counts> goes through obj_to_cti with the
+        # default widths (80, 80); the tokens are "El:n"
+        elements = {}
+        for t in toks:
+            k, v = t.split(':', 1)
+            elements[k] = int(v)
+        built = ['%s:%s' % kv for kv in elements.items()]
+        if host == 'nasa.atoms':
+            sp = Nasa(name='X', T_low=300., T_mid=500., T_high=900., a_low=a, a_high=a,
+                      elements=elements, phase='gas')
+        elif host == 'shomate.atoms':
+            sp = Shomate(name='X', T_low=300., T_high=900., a=np.zeros(8), elements=elements,
+                         phase='gas')
+        else:
+            sp = Nasa9(name='X', nasas=[SingleNasa9(T_low=300., T_high=900., a=np.zeros(9))],
+                       elements=elements, phase='gas')
+        reader = lambda: ['%s:%s' % (k, int(v)) for k, v in sp.elements.items()]
+        return (lambda ml: sp.to_cti()), (lambda: sp.to_cti()), {'atoms': (built, reader, 80)}
     species = [Nasa(name=t, T_low=300., T_mid=500., T_high=900., a_low=a, a_high=a,
                     elements={'H': 2}, phase='gas') for t in toks]
-    host = case['host']
+    name = case.get('name', 'phase1')
+    note = ' '.join(toks)
     if host == 'interface':
-        ph = InteractingInterface(name='surf', species=species, phases=list(toks), site_density=1e-9,
-                                  interactions=None, reactions=None, options=list(toks),
-                                  note=' '.join(toks))
-        fields = ('species', 'phases', 'options', 'note')
-    else:
+        ph = InteractingInterface(name=name, species=species, phases=list(toks), site_density=1e-9,
+                                  interactions=None, reactions=None, options=list(toks), note=note)
+        names = ('name', 'species', 'phases', 'options', 'note')
+    elif host in ('idealgas', 'ct_idealgas'):
         cls = IdealGas if host == 'idealgas' else CtIdealGas
-        ph = cls(name='gas', species=species, reactions=None, options=list(toks), note=' '.join(toks))
-        fields = ('species', 'options', 'note')
-    readers = {'species': lambda: [sp.name for sp in ph.species],
-               'phases': lambda: _project(ph.phases, 'list'),
-               'options': lambda: _project(ph.options, 'list'),
-               'note': lambda: _project(ph.note, 'str')}
+        ph = cls(name=name, species=species, reactions=None, options=list(toks), note=note)
+        names = ('name', 'species', 'options', 'note')
+    else:
+        cls = StoichSolid if host == 'stoichsolid' else CtStoichSolid
+        init = {'k%d' % i: t for i, t in enumerate(toks)}
+        ph = cls(name=name, species=species, reactions=None, options=list(toks), note=note,
+                 density=2.5, initial_state=init, transport=tuple(toks))
+        names = ('name', 'species', 'options', 'note', 'initial_state', 'transport')
+    all_fields = {
+        'name': (name.split(' '), lambda: _project(ph.name, 'str'), None),
+        'species': (list(toks), lambda: [sp.name for sp in ph.species], None),
+        'phases': (list(toks), lambda: _project(getattr(ph, 'phases', []), 'list'), None),
+        'options': (list(toks), lambda: _project(ph.options, 'list'), None),
+        'note': (list(toks), lambda: _project(ph.note, 'str'), None),
+        'transport': (list(toks), lambda: _project(ph.transport, 'list'), None),
+        'initial_state': (['k%d:%s' % (i, t) for i, t in enumerate(toks)],
+                          lambda: _project(ph.initial_state, 'dict'), None)}
+    write = lambda ml: ph.to_cti() if ml is None else ph.to_cti(max_line_len=ml)
+    return write, (lambda: ph.to_omkm_yaml()), {f: all_fields[f] for f in names}
+
+
+def execute_wrapfield(case):
+    """A real phase (or species) whose fields carry the tokens is written once per entry of
+    case['mls'] with to_cti (another writer in between); each written field is one wrap event.
+    line_len of an event is max_line_len minus the characters in front of the value on its line
+    (read off the written text), or the width the writer asks obj_to_cti for (species atoms)."""
+    write, between, fields = _wrap_host(case)
     events, widths = [], []
-    for ml in case['mls']:
-        before = {f: readers[f]() for f in fields}
+    for ml_asked in case['mls']:
+        ml = 80 if ml_asked is None else ml_asked
+        before = {f: fields[f][1]() for f in fields}
         raised, text = '', ''
         try:
-            text = ph.to_cti(max_line_len=ml)
+            text = write(ml_asked)
         except Exception as ex:
             raised = type(ex).__name__
-        for f in fields:
+        for f, (built, reader, fixed) in fields.items():
             plen, val = (0, '') if raised else _cti_value(text, f)
-            events.append(_wrap_event(toks, before[f], readers[f](), ml - plen, ml, raised, val,
-                                      '%s.%s' % (host, f)))
-            widths.append((ml - plen, ml))
+            ll = fixed if fixed is not None else ml - plen
+            events.append(_wrap_event(built, before[f], reader(), ll, ml, raised, val,
+                                      '%s.%s' % (case['host'], f)))
+            widths.append((ll, ml))
         try:
-            ph.to_omkm_yaml()
+            between()
         except Exception:
             pass                          # not a C18 call
     info = _wrap_info(events, widths, False)
@@ -354,7 +439,8 @@ def _safe_execute(case):
 # the calls of one case are made on the SAME collection object (one per carrier)
 CALL_SETS = ([{'form': 'str', 'as': 'str'}, {'form': 'list', 'as': 'str'}],
              [{'form': 'list', 'as': 'id'}, {'form': 'str', 'as': 'id'}],
-             [{'form': 'str', 'as': 'name'}, {'form': 'list', 'as': 'name'}])
+             [{'form': 'str', 'as': 'name'}, {'form': 'list', 'as': 'name'}],
+             [{'form': 'list', 'as': 'mixed'}, {'form': 'str', 'as': 'mixed'}])
 CALL_SETS3 = tuple(cs + [dict(cs[0])] for cs in CALL_SETS) + (
     [{'form': 'str', 'as': 'str'}, {'form': 'str', 'as': 'id'}, {'form': 'list', 'as': 'str'}],)
 
@@ -364,7 +450,7 @@ def _tlc_range_cases(raw):
     for k, c in enumerate(raw):
         ids = [uncodes(x) for x in c['ids']]
         cases.append({'kind': 'range', 'cid': 'tr%d' % k, 'tlc': True, 'ids': ids, 'delim': DELIM,
-                      'must': bool(c['must']), 'n': c['n'], 'calls': CALL_SETS[k % 3]})
+                      'must': bool(c['must']), 'n': c['n'], 'calls': CALL_SETS[(k // 5) % 4]})
     return cases
 
 
@@ -457,7 +543,7 @@ def _random_range_case(rnd, cid, canonical_only=False, delim=None):
     heads = rnd.sample(pool, rnd.randint(1, 3))
     n = rnd.choice([0, 1, 2, 3, 5, 8, 13, 21, 34, 60, rnd.randint(0, 60)])
     allcanon = canonical_only or rnd.random() < 0.6
-    ids, must = [], True
+    ids, must, cls = [], True, set()
     for s in _suffixes(rnd, n):
         h = rnd.choice(heads)
         style = 'canon' if allcanon else rnd.choice(['canon', 'canon', 'natural', 'wide', 'narrow'])
@@ -477,10 +563,16 @@ def _random_range_case(rnd, cid, canonical_only=False, delim=None):
         # are): ASCII oddities and digits of other scripts, alone (n = 0) or next to encodable
         # identifiers they would merge with if read as numbers
         for _ in range(rnd.randint(1, 3)):
-            ids.insert(rnd.randrange(len(ids) + 1), _odd_id(rnd, ids, delim))
+            odd = _odd_id(rnd, ids, delim)
+            ids.insert(rnd.randrange(len(ids) + 1), odd)
+            cls.add('odd:ascii' if odd.isascii() else 'odd:non_ascii_digits')
         must = False
+    calls = rnd.choice(CALL_SETS3)
+    if rnd.random() < 0.2:                     # one list mixing str / .id / .name elements
+        calls = [dict(c, **{'as': 'mixed'}) for c in calls]
+        cls.add('carrier:mixed')
     return {'kind': 'range', 'cid': cid, 'ids': ids, 'delim': delim, 'must': must,
-            'calls': rnd.choice(CALL_SETS3)}
+            'calls': calls, 'cls': sorted(cls)}
 
 
 FIELD_HOSTS = ('interface.reactions', 'interface.interactions', 'idealgas.reactions',
@@ -493,6 +585,7 @@ def _field_case(rnd, cid, host):
     c = _random_range_case(rnd, cid, canonical_only=rnd.random() < 0.7,
                            delim=DELIM if host.startswith('bep.yaml') else None)
     c.update({'kind': 'field', 'host': host})
+    c['cls'] = sorted(set(c.get('cls', [])) - {'carrier:mixed'} | {'field:' + host})
     c.pop('calls', None)
     return c
 
@@ -502,6 +595,27 @@ def _mk_token(rnd, n, with_colon=False):
     if with_colon:
         t = t.replace(':', 'c')
     return t
+
+
+# realistic species-like tokens (hyphens between letters, quotes, commas, brackets, colons)
+NAME_TOKENS = ('CH3CH2OH(S)', 'trans-butene(S)', 'tert-butanol(S)', 'cis-2-butene', 'H2O(S)', 'Pt(111)',
+               'O-H', 'n-C4H10', 'iso-octane(S)', 'HCOO**(S)', "C'", "H2O'(S)", 'a,b', 'x:y', '[Pt]',
+               'CO2(S)', '12', '1e-5', 'well-known-intermediate', 'semi-hydrogenated-state(S)', '-', 'A-b')
+# tokens with characters outside ASCII (lengths are counted in code points, as python does):
+# Greek, accents (precomposed and combining), CJK, micro sign, circled digit, and a token holding a
+# NO-BREAK SPACE (one element of the caller's list: still one token)
+UNICODE_TOKENS = ('\u03b1-pinene', '\u00c5', 'caf\u00e9(S)', '\u6c22(S)', '\u00b5-oxo', 'e\u0301thane',
+                  '\u2460', 'na\u00efve-Bayes', 'x\u00a0y', '\u0394H\u2021', '\u03b2-H-elimination(S)')
+
+
+def _class_token(rnd, cls):
+    if cls == 'names':
+        return rnd.choice(NAME_TOKENS)
+    if cls == 'unicode':
+        return rnd.choice(UNICODE_TOKENS)
+    if cls == 'long':                         # longer than a width of the quantifier
+        return _mk_token(rnd, rnd.choice([31, 33, 60, 101, 120]))
+    raise core.MachineryError(cls)
 
 
 def _tlc_wrap_cases(raw):
@@ -537,6 +651,16 @@ def _random_wrap_case(rnd, cid):
             continue
         seen.add(t)
         toks.append(t)
+    tokcls = []
+    if how in ('list', 'tuple', 'str', 'set') and toks and rnd.random() < 0.35:
+        for cls in rnd.sample(['names', 'unicode', 'long'], rnd.randint(1, 2)):
+            for _ in range(rnd.randint(1, 4)):
+                t = _class_token(rnd, cls)
+                if t not in seen:
+                    seen.add(t)
+                    toks[rnd.randrange(len(toks))] = t
+            tokcls.append(cls)
+        toks = list(dict.fromkeys(toks)) if how == 'set' else toks
     r = rnd.random()
     if r < 0.5:                                # as the phase writers call it: ll = ml - indent
         ml = rnd.randint(46, 100)
@@ -552,23 +676,201 @@ def _random_wrap_case(rnd, cid):
     if rnd.random() < 0.6:
         ml2 = rnd.randint(46, 100)
         widths.insert(rnd.choice([1, 2]), [max(30, ml2 - rnd.choice([0, 11, 18, 23, 30])), ml2])
-    return {'kind': 'wrap', 'cid': cid, 'toks': toks, 'll': ll, 'ml': ml, 'obj': how, 'widths': widths}
+    if rnd.random() < 0.1:
+        widths.append(None)                    # once more with the documented defaults (80, 80)
+    return {'kind': 'wrap', 'cid': cid, 'toks': toks, 'll': ll, 'ml': ml, 'obj': how, 'widths': widths,
+            'cls': ['tok:' + c for c in tokcls] + (['width:default'] if widths[-1] is None else [])}
 
 
-WRAP_HOSTS = ('interface', 'idealgas', 'ct_idealgas')
+WRAP_HOSTS = ('interface', 'idealgas', 'ct_idealgas', 'stoichsolid', 'ct_stoichsolid',
+              'nasa.atoms', 'shomate.atoms', 'nasa9.atoms')
 
 
 def _wrapfield_case(rnd, cid, host):
+    if host.endswith('.atoms'):
+        n = rnd.choice([1, 2, 5, 12, 20, 30, 50])
+        toks = ['%s:%d' % (e, rnd.choice([1, 2, 10, 100])) for e in rnd.sample(ELEMENT_SYMBOLS, n)]
+        return {'kind': 'wrap', 'cid': cid, 'host': host, 'toks': toks, 'obj': 'host:' + host,
+                'll': 80, 'ml': 80, 'mls': [None, None], 'cls': ['host:' + host]}
     n = rnd.choice([1, 2, 3, 5, 8, 13, 20, 30])
     toks, seen = [], set()
     while len(toks) < n:
-        t = _mk_token(rnd, rnd.choice([1, 3, 8, 12, 20, 28, 30, rnd.randint(1, 30)]))
+        r = rnd.random()
+        if r < 0.25:
+            t = _class_token(rnd, rnd.choice(['names', 'unicode']))
+        else:
+            t = _mk_token(rnd, rnd.choice([1, 3, 8, 12, 20, 28, 30, rnd.randint(1, 30)]))
+        t = t.replace(':', 'c')                # initial_state keys/values are cut at the first colon
         if t not in seen:
             seen.add(t)
             toks.append(t)
     ml = rnd.randint(70, 100)
-    return {'kind': 'wrap', 'cid': cid, 'host': host, 'toks': toks, 'obj': 'phase:' + host,
-            'll': ml, 'ml': ml, 'mls': [ml, ml] if rnd.random() < 0.5 else [ml, rnd.randint(70, 100)]}
+    mls = [[ml, ml], [ml, rnd.randint(70, 100)], [None, ml], [ml, None]][rnd.randrange(4)]
+    name = rnd.choice(['gas', 'surf', 'a-long-phase-name-' + _mk_token(rnd, 30).replace(':', 'c'),
+                       'two words', _mk_token(rnd, rnd.randint(1, 30)).replace(':', 'c')])
+    return {'kind': 'wrap', 'cid': cid, 'host': host, 'toks': toks, 'obj': 'host:' + host, 'name': name,
+            'll': ml, 'ml': ml, 'mls': mls,
+            'cls': ['host:' + host] + (['width:default'] if None in mls else [])}
+
+
+# --------------------------------------------------------------------------
+# audit classes: the phrases of the quantifier, each exercised in EVERY run
+# --------------------------------------------------------------------------
+CARRIERS = ('str', 'id', 'name', 'mixed')
+
+
+def _ids(head, nums, width=4, delim=DELIM):
+    return [('%0*d' % (width, n)) if head is None else '%s%s%0*d' % (head, delim, width, n) for n in nums]
+
+
+def _audit_range_cases(rnd):
+    """(class label, ids, must, delimiter) for every phrase of the range quantifier; each is then
+    run in several orders, with every carrier and in both output forms."""
+    B = []                                                   # (cls, ids, must, delim)
+    two = lambda n: _ids('r', range(1, n // 2 + 1)) + _ids('surf_r', range(100, 100 + n - n // 2))
+    for n in (0, 1, 2, 59, 60):                              # size of the collection: both ends
+        B.append(('size:%d' % n, two(n), True, DELIM))
+    B.append(('size:60_one_run', _ids('r', range(41, 101)), True, DELIM))
+    # prefixes
+    B.append(('prefix:none', _ids(None, [1, 2, 3, 7]), True, DELIM))
+    B.append(('prefix:empty', _ids('', [1, 2, 3, 7]), False, DELIM))
+    B.append(('prefix:empty_vs_none', _ids('', [4, 5]) + _ids(None, [4, 5, 6]), False, DELIM))
+    B.append(('prefix:has_delimiter', _ids('a_b', [1, 2, 4]) + _ids('a', [1, 2]), True, DELIM))
+    B.append(('prefix:double_delimiter', _ids('a__b', [1, 2]) + _ids('a_', [5, 6]), True, DELIM))
+    B.append(('prefix:is_delimiter', _ids('_', [1, 2, 3]), True, DELIM))
+    B.append(('prefix:prefix_of_other', _ids('r', [1, 2, 3]) + _ids('rxn', [2, 3, 4]) + _ids('rx', [3]), True, DELIM))
+    B.append(('prefix:ends_in_digit', _ids('r2', [1, 2]) + _ids('r', [21, 22]) + _ids('s10', [9, 10]), True, DELIM))
+    B.append(('prefix:digits_only', _ids('12', [3, 4]) + _ids(None, [123, 124]), True, DELIM))
+    B.append(('prefix:three', _ids('a', [1, 2]) + _ids('b', [2, 3]) + _ids('c_d', [3, 5]), True, DELIM))
+    B.append(('prefix:one', _ids('only', [5, 6, 7, 9]), True, DELIM))
+    # suffix values: ends of 0..99999 and their neighbours
+    for name, nums in (('0', [0]), ('0_1', [0, 1]), ('9_10', [9, 10]), ('99999', [99999]),
+                       ('99998_99999', [99998, 99999]), ('0_99999', [0, 99999]),
+                       ('9999_10000', [9999, 10000, 10001])):
+        B.append(('suffix:' + name, _ids('r', nums), True, DELIM))
+    # printed widths within one collection, and width changes inside a run
+    B.append(('width:3_03_0003', ['r_3', 'r_03', 'r_0003'], False, DELIM))
+    B.append(('width:same_value_runs', ['r_3', 'r_03', 'r_0003', 'r_4', 'r_04', 'r_0004', 'r_5'], False, DELIM))
+    B.append(('width:bare_12_012', ['12', '012', '0012', '13'], False, DELIM))
+    B.append(('width:0099_0100', _ids('r', [98, 99, 100, 101]), True, DELIM))
+    B.append(('width:99_100', ['r_98', 'r_99', 'r_100', 'r_101'], False, DELIM))
+    B.append(('width:9_10', ['r_8', 'r_9', 'r_10', 'r_11'], False, DELIM))
+    B.append(('width:09999_10000', ['r_09999', 'r_10000', 'r_9999'], False, DELIM))
+    B.append(('width:natural_0', ['r_0', 'r_1', 'r_00', 'r_01'], False, DELIM))
+    # gaps
+    B.append(('gap:1', _ids('r', [1, 2, 4, 5]), True, DELIM))
+    B.append(('gap:2', _ids('r', [1, 2, 5, 6]), True, DELIM))
+    B.append(('gap:all_single', _ids('r', [1, 3, 5, 7, 9]), True, DELIM))
+    # duplicates
+    B.append(('dup:adjacent', _ids('r', [1, 1, 2, 3]), True, DELIM))
+    B.append(('dup:apart', _ids('r', [1, 2, 3, 1]), True, DELIM))
+    B.append(('dup:all_same', _ids('r', [5, 5, 5]), True, DELIM))
+    B.append(('dup:run_twice', _ids('r', [1, 2, 3, 1, 2, 3]), True, DELIM))
+    B.append(('dup:across_prefixes', _ids('a', [1, 2]) + _ids('b', [1, 2]) + _ids('a', [2]), True, DELIM))
+    # other delimiters (documented parameter)
+    B.append(('delim:-', _ids('a-b', [1, 2, 4], delim='-') + _ids('r_x', [7, 8], delim='-'), True, '-'))
+    B.append(('delim:.', _ids('a.b', [1, 2, 4], delim='.') + _ids(None, [7, 8]), True, '.'))
+    out = []
+    for k, (cls, ids, must, delim) in enumerate(B):
+        orders = [('given', list(ids)), ('ascending', sorted(ids)), ('descending', sorted(ids, reverse=True))]
+        sh = list(ids)
+        rnd.shuffle(sh)
+        orders.append(('shuffled', sh))
+        seen = set()
+        for oname, seq in orders:
+            if tuple(seq) in seen:
+                continue
+            seen.add(tuple(seq))
+            for c, carrier in enumerate(CARRIERS):
+                forms = ('str', 'list') if (k + c) % 2 == 0 else ('list', 'str')
+                out.append({'kind': 'range', 'cid': 'ar%d' % len(out), 'ids': seq, 'delim': delim,
+                            'must': must, 'calls': [{'form': f, 'as': carrier} for f in forms],
+                            'parent': (k + c) % 3 == 0, 'defaults': delim == DELIM and (k + c) % 3 == 1,
+                            'cls': [cls, 'order:' + oname, 'carrier:' + carrier]
+                                   + (['arg:parent_obj'] if (k + c) % 3 == 0 else [])
+                                   + (['arg:defaults'] if delim == DELIM and (k + c) % 3 == 1 else [])})
+    return out
+
+
+def _fit_tokens(total, n):
+    """n tokens whose ' '.join has exactly `total` characters"""
+    body = total - (n - 1)
+    base, extra = divmod(body, n)
+    return [chr(97 + i % 26) * (base + (1 if i < extra else 0)) for i in range(n)]
+
+
+def _audit_wrap_cases(rnd):
+    B = []                                                   # (cls, toks, kind, widths)
+    W = {'30_30': [30, 30], '100_100': [100, 100], '30_100': [30, 100], '100_30': [100, 30],
+         '31_30': [31, 30], '99_100': [99, 100], '80_80': [80, 80]}
+    for n in (0, 1, 2, 79, 80):                              # number of tokens: both ends
+        for ln, lname in ((1, '1'), (30, '30'), (None, 'mixed')):
+            if ln == 1:
+                toks = [TOKEN_ALPHABET[i % len(TOKEN_ALPHABET)] for i in range(n)]
+            elif ln == 30:
+                toks = ['T' + str(i).zfill(29) for i in range(n)]
+            else:
+                toks = [(str(i) + 'x' * 30)[:1 + (7 * i) % 30] for i in range(n)]
+            for wname in ('30_30', '100_100', '30_100'):
+                B.append(('ntok:%d' % n, toks, 'list' if n != 2 else 'tuple', [W[wname], W[wname]]))
+                B.append(('len:' + lname, toks, 'str', [W[wname]]))
+    for wname, w in W.items():                               # the ends of 30..100 and both orders
+        toks = _fit_tokens(150, 12)
+        B.append(('width:' + wname, toks, 'list', [w, w]))
+        B.append(('width:' + wname, _fit_tokens(3 * w[0], 9), 'tuple', [w]))
+    B.append(('width:default', _fit_tokens(200, 20), 'list', [None, None]))
+    B.append(('width:default', _fit_tokens(77, 6), 'list', [None]))
+    B.append(('width:default', _fit_tokens(78, 6), 'tuple', [None]))
+    # the one-line / multi-line threshold and a last line that ends next to its limit
+    for ll in (30, 80, 100):
+        for d in (-4, -3, -2, -1, 0, 1):
+            B.append(('fit:one_line_threshold', _fit_tokens(ll + d, 4), 'list', [[ll, ll], [ll, 100]]))
+    for ml in (40, 60, 100):
+        for k in (3, 2, 1, 0):
+            per = (ml - k + 1) // 5 - 1
+            B.append(('fit:last_line_near_limit', [chr(97 + i) * per for i in range(10)], 'list', [[ml, ml]]))
+    # tokens longer than the width
+    B.append(('tok:long', ['x' * 31, 'ab', 'y' * 120, 'cd', 'z' * 101], 'list', [[30, 30], [100, 100], [30, 100]]))
+    B.append(('tok:long', ['q' * 200], 'str', [[30, 30], None]))
+    # alphabets
+    B.append(('tok:names', list(NAME_TOKENS), 'list', [[30, 30], [40, 60], None]))
+    B.append(('tok:names', list(NAME_TOKENS), 'str', [[35, 35], [31, 80]]))
+    B.append(('tok:names', list(reversed(NAME_TOKENS)), 'tuple', [[33, 33], [36, 36], [39, 39], [42, 42]]))
+    B.append(('tok:unicode', list(UNICODE_TOKENS), 'list', [[30, 30], [40, 60], None]))
+    B.append(('tok:unicode', list(UNICODE_TOKENS), 'str', [[30, 45]]))
+    B.append(('tok:unicode', list(UNICODE_TOKENS), 'set', [[30, 30], [30, 30]]))
+    # every accepted kind of value
+    base = ['k%d:%s' % (i, 'v' * (3 + i % 20)) for i in range(14)]
+    B.append(('kind:dict', base, 'dict', [[30, 30], [50, 80], None]))
+    B.append(('kind:dictnum', ['El%d:%d' % (i, i * 7 % 13) for i in range(30)], 'dictnum', [[30, 30], None]))
+    B.append(('kind:dictnum', ['x:1.5', 'y:2e-05', 'z:3'], 'dictnum', [[30, 30]]))
+    B.append(('kind:set', [chr(97 + i) * (1 + i % 30) for i in range(26)], 'set', [[30, 30], [60, 80], None]))
+    B.append(('kind:tuple', _fit_tokens(120, 10), 'tuple', [[30, 30], [100, 100]]))
+    B.append(('kind:str', _fit_tokens(120, 10), 'str', [[30, 30], [100, 100]]))
+    B.append(('kind:str_one_word', ['w' * 29], 'str', [[30, 30], [31, 31], [32, 32]]))
+    B.append(('kind:none', [], 'none', [[30, 30], [100, 100], None]))
+    for v in ('0', '7', '-12', '123456789012345678901234567890123456'):
+        B.append(('kind:int', [v], 'int', [[30, 30], None]))
+    for v in ('0.0', '1e-09', '-273.15', '6.02214086e+23', 'inf'):
+        B.append(('kind:float', [v], 'float', [[30, 30], None]))
+    B.append(('kind:bool', ['True'], 'bool', [[30, 30]]))
+    B.append(('kind:bool', ['False'], 'bool', [None]))
+    return [{'kind': 'wrap', 'cid': 'aw%d' % k, 'toks': toks, 'obj': how, 'widths': widths,
+             'll': (widths[0] or [80, 80])[0], 'ml': (widths[0] or [80, 80])[1], 'cls': [cls]}
+            for k, (cls, toks, how, widths) in enumerate(B)]
+
+
+# every label listed here must have been exercised at least once in every run (else exit 2)
+def _required_classes():
+    rnd = random.Random(0)
+    req = set()
+    for c in _audit_range_cases(rnd) + _audit_wrap_cases(rnd):
+        req.update(c['cls'])
+    req.update('host:' + h for h in WRAP_HOSTS)
+    req.update('field:' + h for h in FIELD_HOSTS)
+    req.update(['odd:non_ascii_digits', 'odd:ascii', 'tok:names', 'tok:unicode', 'tok:long',
+                'width:default'])
+    return req
 
 
 def _tags(case):
@@ -604,55 +906,59 @@ def run(ctx):
     if ctx.replay_case is not None:
         cases = [ctx.replay_case['case']]
     else:
-        # (D) design models
-        ctx.model('MC_OmkmRange', ctx.pick('MC_OmkmRange', 'MC_OmkmRange_big'))
-        bad = ctx.model('MC_OmkmRange', 'MC_OmkmRange_pad4', expect_ok=False)
-        if bad.ok or bad.violated is None:
-            raise core.MachineryError('the %04d algorithm on arbitrary printed widths should be '
-                                      'rejected by the design model:\n' + bad.out[-2000:])
-        ctx.notes.append('design model rejects the "%%04d" re-printing on identifiers of other widths '
-                         'and on the empty prefix: %s violated' % bad.violated)
-        ctx.model('MC_OmkmRange', ctx.pick('MC_OmkmRange_keepwidth', 'MC_OmkmRange_keepwidth_big'))
-        bad = ctx.model('MC_OmkmRange', 'MC_OmkmRange_isdigit', expect_ok=False)
-        if bad.ok or bad.violated is None:
-            raise core.MachineryError('the isdigit()+int() footer test should be rejected by the design '
-                                      'model:\n' + bad.out[-2000:])
-        ctx.notes.append('design model rejects accepting footers spelt with digits of other scripts '
-                         '(isdigit()+int()): %s violated' % bad.violated)
-        ctx.model('MC_CtiWrap', ctx.pick('MC_CtiWrap', 'MC_CtiWrap_big'))
-        bad = ctx.model('MC_CtiWrap', 'MC_CtiWrap_onelimit', expect_ok=False)
-        if bad.ok or bad.violated is None:
-            raise core.MachineryError('the one-limit filling should be rejected by the design model:\n'
-                                      + bad.out[-2000:])
-        ctx.notes.append('design model rejects filling the first line to max_line_len: %s violated'
-                         % bad.violated)
-        for cfg, what in (('MC_CtiWrap_alias', 'changing the caller\'s list during a call'),
-                          ('MC_CtiWrap_alias_tokens', 'the marker left in the caller\'s list showing up '
-                                                      'as a token of a later call')):
-            bad = ctx.model('MC_CtiWrap', cfg, expect_ok=False)
-            if bad.ok or bad.violated is None:
-                raise core.MachineryError('%s should be rejected by the design model:\n%s'
-                                          % (cfg, bad.out[-2000:]))
-            ctx.notes.append('design model rejects %s: %s violated' % (what, bad.violated))
-        # (S->C) TLC case sets
-        raw_r, _ = core.tlc_cases('MC_OmkmRange_cases', 'MC_OmkmRange_cases')
-        raw_w, _ = core.tlc_cases('MC_CtiWrap_cases', 'MC_CtiWrap_cases')
+        # (D) design models and (S->C) case sets: independent TLC runs, made side by side
+        import concurrent.futures as cf
+        good = [('MC_OmkmRange', ctx.pick('MC_OmkmRange_keepwidth', 'MC_OmkmRange_keepwidth_big')),
+                ('MC_CtiWrap', ctx.pick('MC_CtiWrap', 'MC_CtiWrap_big'))]
+        if not ctx.quick:      # the "%04d" algorithm the code had before c18692e, kept for the record
+            good.append(('MC_OmkmRange', 'MC_OmkmRange_big'))
+        bad = [('MC_OmkmRange', 'MC_OmkmRange_isdigit',
+                'accepting footers spelt with digits of other scripts (isdigit()+int())'),
+               ('MC_OmkmRange', 'MC_OmkmRange_pad4',
+                'the "%04d" re-printing on identifiers of other widths and on the empty prefix'),
+               ('MC_CtiWrap', 'MC_CtiWrap_onelimit', 'filling the first line to max_line_len'),
+               ('MC_CtiWrap', 'MC_CtiWrap_alias', 'changing the caller\'s list during a call'),
+               ('MC_CtiWrap', 'MC_CtiWrap_alias_tokens',
+                'the marker left in the caller\'s list showing up as a token of a later call')]
+        with cf.ThreadPoolExecutor(max_workers=4) as ex:
+            f_good = [ex.submit(ctx.model, m, c, workers=ctx.pick(4, 8)) for m, c in good]
+            f_cases = [ex.submit(core.tlc_cases, m, m) for m in ('MC_OmkmRange_cases', 'MC_CtiWrap_cases')]
+            f_bad = [(ex.submit(ctx.model, m, c, workers=2, expect_ok=False), c, what) for m, c, what in bad]
+            for f in f_good:
+                f.result()
+            for f, c, what in f_bad:
+                r = f.result()
+                if r.ok or r.violated is None:
+                    raise core.MachineryError('%s should be rejected by the design model:\n%s'
+                                              % (c, r.out[-2000:]))
+                ctx.notes.append('design model rejects %s: %s violated' % (what, r.violated))
+            raw_r, raw_w = f_cases[0].result()[0], f_cases[1].result()[0]
         ctx.coverage['tlc_range_cases'] = len(raw_r)
         ctx.coverage['tlc_wrap_cases'] = len(raw_w)
-        cases = _tlc_range_cases(raw_r) + _tlc_wrap_cases(raw_w)
-        # random draws from the quantifier
+        # quick: a rotating part of the TLC case sets (all of them over consecutive seeds);
+        # thorough: the complete sets.  The JSON order is TLC's and does not depend on the seed.
+        rr, rw = ctx.pick(5, 1), ctx.pick(3, 1)
+        tr, tw = _tlc_range_cases(raw_r), _tlc_wrap_cases(raw_w)
+        cases = [c for k, c in enumerate(tr) if k % rr == ctx.seed % rr]
+        cases += [c for k, c in enumerate(tw) if k % rw == ctx.seed % rw]
+        ctx.coverage['tlc_range_cases_replayed'] = sum(1 for c in cases if c['kind'] == 'range')
+        ctx.coverage['tlc_wrap_cases_replayed'] = sum(1 for c in cases if c['kind'] == 'wrap')
         rnd = random.Random(ctx.seed)
-        for k in range(ctx.pick(1500, 20000)):
+        # the phrases of the quantifier, every run
+        cases += _audit_range_cases(rnd) + _audit_wrap_cases(rnd)
+        # random draws from the quantifier
+        for k in range(ctx.pick(1200, 20000)):
             cases.append(_random_range_case(rnd, 'rr%d' % k))
-        for k in range(ctx.pick(450, 4500)):
+        for k in range(ctx.pick(360, 4500)):
             cases.append(_field_case(rnd, 'rf%d' % k, FIELD_HOSTS[k % len(FIELD_HOSTS)]))
-        for k in range(ctx.pick(1500, 20000)):
+        for k in range(ctx.pick(1200, 20000)):
             cases.append(_random_wrap_case(rnd, 'rw%d' % k))
         for k in range(ctx.pick(240, 2400)):
             cases.append(_wrapfield_case(rnd, 'wf%d' % k, WRAP_HOSTS[k % len(WRAP_HOSTS)]))
     results = core.pmap(_safe_execute, cases)
     rtraces, wtraces = [], []
     layout_same = layout_cmp = 0
+    classes = {}
     for tid, (case, (events, mism, info)) in enumerate(zip(cases, results)):
         ctx.evaluated()
         if _nontrivial(case):
@@ -665,10 +971,21 @@ def run(ctx):
         for key, val in info.items():
             if key != 'layout_equals_model':
                 ctx.count('exercised_' + key, val)
+        for label in case.get('cls', ()):
+            classes[label] = classes.get(label, 0) + 1
         (wtraces if case['kind'] == 'wrap' else rtraces).append((tid, events))
         if tid % 7919 == 0 or (not case.get('tlc') and tid % 397 == 0):
             ctx.sample({k: v for k, v in case.items() if k in
                         ('kind', 'ids', 'delim', 'host', 'toks', 'll', 'ml', 'obj', 'must')}, cap=8)
+    ctx.coverage['exercised_classes'] = dict(sorted(classes.items()))
+    if ctx.replay_case is None:
+        missing = sorted(_required_classes() - set(k for k, v in classes.items() if v > 0))
+        for key in ('range_calls_rejected', 'range_outputs_with_to_entries', 'wrap_multiline_outputs',
+                    'wrap_overlong_one_word_lines', 'same_list_wrapped_twice_multiline'):
+            if not ctx.coverage.get('exercised_' + key):
+                missing.append(key)
+        if missing:
+            raise core.MachineryError('vacuous run: input classes never exercised: %s' % ', '.join(missing))
     ctx.coverage['wrap_layouts_compared_with_model'] = layout_cmp
     ctx.coverage['wrap_layouts_equal_to_model'] = layout_same
     if layout_cmp and layout_same != layout_cmp:
